@@ -74,10 +74,13 @@ class LayerBuilderModel:
             # an empty list supplies no modules: the call itself is not rejected, but the layer stays pending
             return "accept"
         assigned = {m for v in self.layers.values() if v for m in v}
-        if any(m in assigned for m in mods) or len(set(mods)) != len(mods):
+        if any(m in assigned for m in mods):
             return "reject"
         self.layers[self.pending] = mods
         self.pending = None
+        if len(set(mods)) != len(mods):
+            # the same name twice in one list: still one layer for that module - the property neither forbids nor demands it
+            return "noclaim"
         if any(_related(m, o) for m in mods for o in list(assigned) + mods):
             # a module supplied together with / after its own parent or sub module: the names differ, so nothing in the
             # property forbids it, but nothing demands that it be accepted either. No claim about the call itself; if it is
@@ -333,7 +336,7 @@ def cases(draw):
     if kind == "arch":
         ops = [("layer", "L1"), ("layer", "L2"), ("layer", "L3"), ("cm", M1), ("cm", M2), ("cm", M3), ("cm", [M1]),
                ("cm", [M2, M3]), ("cm", [M1, M3]), ("cm", [M3]), ("rx", RX), ("rx", r"pkg\.q.*"), ("with_layer",), ("cm", []), ("cm", M0), ("cm", [M0, M2]), ("cm", [M3, M1]), ("cm", [M2, M0, M1]),
-               ("cm", [M1, M1X]), ("cm", [M1X, M3, M1]), ("cm", M1X), ("cm", ["pkg", M2]), ("cm", [M1X])]
+               ("cm", [M1, M1X]), ("cm", [M1X, M3, M1]), ("cm", M1X), ("cm", ["pkg", M2]), ("cm", [M1X]), ("cm", [M2, M2]), ("cm", [M3, M1, M3])]
         seq = draw(st.lists(st.sampled_from(ops), min_size=3, max_size=12))
     else:
         seq = [("based_on",), ("layers_that",)] if draw(st.booleans()) else []
